@@ -505,6 +505,60 @@ Section Soundness.
     apply (W_conf (s_chain p) (s_extra p) (fields_of (s_hints p)) ca ea fa); auto.
   Qed.
 
+  (** *** inheritance chains *)
+  Definition link_ok (p : schema) (c : childdef) : Prop :=
+    c_declared c = [] /\ NoDup (map fst (s_hints p)) /\
+    (forall n, In n (c_newconsts c) -> has_key n (s_hints p) = false) /\
+    overrides_ok p c.
+
+  Fixpoint chain_ok (p : schema) (cs : list childdef) : Prop :=
+    match cs with
+    | [] => True
+    | c :: r => link_ok p c /\ chain_ok (child_schema p c) r
+    end.
+
+  Lemma chain_head : forall cs p, In p (chain_schemas p cs).
+  Proof. destruct cs; simpl; auto. Qed.
+
+  Lemma leaf_in_chain : forall cs p, In (leaf_schema p cs) (chain_schemas p cs).
+  Proof.
+    induction cs as [|c r IH]; intros p; simpl; auto.
+  Qed.
+
+  (** a chain in which every link passes the check: whatever the last class accepts is
+      accepted by every class of the chain, up to the root *)
+  Theorem checked_chain_sound : forall cs p,
+    check_chain pred p cs = true -> chain_ok p cs ->
+    forall j, accepts pred (obj_of (leaf_schema p cs)) j = true ->
+    forall s, In s (chain_schemas p cs) -> accepts pred (obj_of s) j = true.
+  Proof.
+    induction cs as [|c r IH]; intros p HC HK j HA s Hs.
+    - simpl in *. destruct Hs as [E|[]]. now subst.
+    - simpl in HC. apply andb_true_iff in HC. destruct HC as [HC1 HC2].
+      destruct HK as [[HD [ND [HNC OK]]] HK].
+      change (leaf_schema p (c :: r)) with (leaf_schema (child_schema p c) r) in HA.
+      pose proof (IH (child_schema p c) HC2 HK j HA) as HI.
+      simpl in Hs. destruct Hs as [E|Hs]; [subst s|now apply HI].
+      pose proof (HI _ (chain_head r (child_schema p c))) as Hc.
+      pose proof (checked_child_sound p c HC1 ND HNC OK j Hc) as HP.
+      rewrite HD in HP. exact HP.
+  Qed.
+
+  (** a chain passes exactly when each of its links passes *)
+  Lemma check_chain_links : forall cs p,
+    check_chain pred p cs = true <->
+    (forall k, k < List.length cs ->
+       check_child pred (leaf_schema p (firstn k cs)) (nth k cs (mkchild 0 EAllow [] [] [])) = true).
+  Proof.
+    induction cs as [|c r IH]; intros p; simpl.
+    - split; auto. intros _ k Hk. inversion Hk.
+    - rewrite andb_true_iff, IH. split.
+      + intros [H1 H2] k Hk. destruct k as [|k]; simpl; auto. apply H2. auto with arith.
+      + intros H. split.
+        * apply (H 0). auto with arith.
+        * intros k Hk. apply (H (S k)). auto with arith.
+  Qed.
+
 End Soundness.
 
 (** ** The two premises are needed, and the pinned class check is too weak *)
